@@ -38,7 +38,7 @@ Theorem accepted_request_is_covered cfg s o c sc au :
   request_of o = Some (c, sc, au) -> o_err (snd (step cfg s o)) = "" ->
   exists cl, clients s c = Some cl /\ covered cfg cl sc au.
 Proof.
-  destruct o as [a|? ? ? ? ? ?|? ? ?|? ? ?|? ? ?|?|? ?|auth ok sc' au' g ga|auth sc' au' g ga|? ? ? ?|auth bc ru a|? ? ?|auth bc sc' au'|? ? ? ? ?|? ?];
+  destruct o as [a|? ? ? ? ? ?|? ? ?|? ? ?|? ? ?|?|? ?|auth ok sc' au' g ga|auth sc' au' g ga|? ? ? ?|auth bc ru a|? ? ?|auth bc sc' au'|? ? ? ? ?|? ?|?];
     cbn [request_of]; try discriminate.
   - (* authorize *)
     intros [= <- <- <-]. cbn [step]. unfold authorize.
